@@ -204,11 +204,29 @@ type J struct {
 // JKeys: property names for generated objects.
 var JKeys = []string{"a", "b", "c", "key", "", "0", "1", "01", "length", "constructor", "toString", "valueOf", "é", "\U0001F600", "a b", "x.y", "\ufffd", "A"}
 
-// GenJ draws a JSON-like tree; pure restricts it to what JSON text can carry (no undefined, holes, NaN, infinities).
+// GenJ draws a JSON-like tree; pure restricts it to what JSON text can carry (no undefined, holes, NaN,
+// infinities). want is "" or forces the kind ("arr", "obj", "container").
 func GenJ(t *rapid.T, depth int, pure bool, inArray bool) J {
+	return genJ(t, depth, pure, inArray, "")
+}
+
+// GenJTop draws a container (array or object) at the top.
+func GenJTop(t *rapid.T, depth int, pure bool) J { return genJ(t, depth, pure, false, "container") }
+
+func genJ(t *rapid.T, depth int, pure bool, inArray bool, want string) J {
 	k := rapid.IntRange(0, 19).Draw(t, "jkind")
-	if depth <= 0 && k >= 12 {
+	if depth <= 0 && k >= 12 && want == "" {
 		k = k % 12
+	}
+	switch want {
+	case "arr":
+		k = 12
+	case "obj":
+		k = 16
+	case "container":
+		if k < 12 {
+			k = 12 + k%8
+		}
 	}
 	switch {
 	case k == 0:
@@ -237,23 +255,36 @@ func GenJ(t *rapid.T, depth int, pure bool, inArray bool) J {
 		return J{K: "str", V: s}
 	case k < 16:
 		n := rapid.IntRange(0, 4).Draw(t, "len")
-		out := J{K: "arr"}
-		for i := 0; i < n; i++ {
-			out.E = append(out.E, GenJ(t, depth-1, pure, true))
+		if depth <= 0 {
+			n = 0
 		}
-		// homogeneous arrays are the interesting ones for Export (typed slices): sometimes repeat the first element's shape
-		if n >= 2 && rapid.IntRange(0, 2).Draw(t, "homog") == 0 {
-			for i := 1; i < n; i++ {
-				if out.E[0].K == "arr" || out.E[0].K == "obj" {
-					out.E[i] = GenJContainerLike(t, out.E[0], depth-1, pure)
-				} else if out.E[0].K != "hole" && out.E[0].K != "undef" {
-					out.E[i] = out.E[0]
+		out := J{K: "arr"}
+		// Export types homogeneous arrays as typed slices: make every element the kind of the first one in a third of the arrays
+		homog := n >= 2 && rapid.IntRange(0, 2).Draw(t, "homog") == 0
+		for i := 0; i < n; i++ {
+			if homog && i > 0 {
+				switch first := out.E[0]; first.K {
+				case "arr", "obj":
+					out.E = append(out.E, genJ(t, depth-1, pure, true, first.K))
+				case "hole", "undef", "null":
+					out.E = append(out.E, genJ(t, depth-1, pure, true, ""))
+				default:
+					e := genJ(t, 0, pure, true, "")
+					if e.K != first.K && !(e.K == "hole") {
+						e = first
+					}
+					out.E = append(out.E, e)
 				}
+				continue
 			}
+			out.E = append(out.E, genJ(t, depth-1, pure, true, ""))
 		}
 		return out
 	default:
 		n := rapid.IntRange(0, 4).Draw(t, "len")
+		if depth <= 0 {
+			n = 0
+		}
 		out := J{K: "obj"}
 		seen := map[string]bool{}
 		for i := 0; i < n; i++ {
@@ -263,22 +294,50 @@ func GenJ(t *rapid.T, depth int, pure bool, inArray bool) J {
 			}
 			seen[key] = true
 			out.Keys = append(out.Keys, key)
-			out.E = append(out.E, GenJ(t, depth-1, pure, false))
+			out.E = append(out.E, genJ(t, depth-1, pure, false, ""))
 		}
 		return out
 	}
 }
 
-// GenJContainerLike draws a container of the same kind as like (array/object), so that the outer
-// array is homogeneous by Go kind while the inner element types may differ.
-func GenJContainerLike(t *rapid.T, like J, depth int, pure bool) J {
-	for i := 0; i < 8; i++ {
-		j := GenJ(t, depth+1, pure, true)
-		if j.K == like.K {
-			return j
+// GenJNested draws an array of arrays of arrays whose innermost element kinds vary: the shape on which
+// Export's choice of a common slice type is decided two levels down.
+func GenJNested(t *rapid.T) J {
+	inner := func() J {
+		out := J{K: "arr"}
+		n := rapid.IntRange(0, 2).Draw(t, "innerlen")
+		kind := rapid.SampledFrom([]string{"int", "num", "str", "bool", "null", "mixed", "obj", "arr"}).Draw(t, "innerkind")
+		for i := 0; i < n; i++ {
+			switch kind {
+			case "int":
+				out.E = append(out.E, J{K: "int", V: strconv.Itoa(rapid.IntRange(-2, 9).Draw(t, "i"))})
+			case "num":
+				out.E = append(out.E, J{K: "num", V: FloatLit(float64(rapid.IntRange(-3, 9).Draw(t, "h"))/2+0.25, 64)})
+			case "str":
+				out.E = append(out.E, J{K: "str", V: rapid.SampledFrom([]string{"", "a", "\u00e9"}).Draw(t, "s")})
+			case "bool":
+				out.E = append(out.E, J{K: "bool", V: strconv.FormatBool(rapid.Bool().Draw(t, "b"))})
+			case "null":
+				out.E = append(out.E, J{K: "null"})
+			case "obj":
+				out.E = append(out.E, J{K: "obj"})
+			case "arr":
+				out.E = append(out.E, J{K: "arr"})
+			default:
+				out.E = append(out.E, genJ(t, 0, true, true, ""))
+			}
 		}
+		return out
 	}
-	return J{K: like.K}
+	outer := J{K: "arr"}
+	for i, n := 0, rapid.IntRange(2, 3).Draw(t, "outerlen"); i < n; i++ {
+		mid := J{K: "arr"}
+		for k, m := 0, rapid.IntRange(1, 2).Draw(t, "midlen"); k < m; k++ {
+			mid.E = append(mid.E, inner())
+		}
+		outer.E = append(outer.E, mid)
+	}
+	return outer
 }
 
 func jNum(j J) float64 {
